@@ -324,7 +324,8 @@ def run_impl(case):
                 # the Lua object is not fresh: it has been echoed and minified under ANOTHER configuration before
                 # (keep-all-names flipped, no keep file); the observed run must not depend on that history
                 b''.join(li.to_lines())
-                b''.join(li.to_lines(writer_cls=lua.LuaMinifyTokenWriter, writer_args={'keep_all_names': not ka}))
+                b''.join(li.to_lines(writer_cls=lua.LuaMinifyTokenWriter,
+                                    writer_args={'keep_all_names': not ka, 'keep_names_from_file': None}))
             out = b''.join(li.to_lines(writer_cls=lua.LuaMinifyTokenWriter,
                                        writer_args={'keep_all_names': ka, 'keep_names_from_file': kpath}))
         else:
